@@ -38,7 +38,8 @@ type Config struct {
 	// cost one unit of the search's deviation budget each: a failure detector answer that
 	// differs from the real status (hence every message loss), a client timeout, and a
 	// buffer-length answer other than the exact length or 0 (0 is what bootstrap/server.go wires).
-	// Leader-election timeouts stay free (bounded by MaxTerm), crashes are bounded by MaxNodeFail.
+	// differs from exact-or-zero, and an election timeout while a live leader exists or another live
+	// server is campaigning.  Other election timeouts are free (bounded by MaxTerm), crashes are bounded by MaxNodeFail.
 	// false: the spec's unrestricted either/with (needed for graph equality with TLC).
 	Budgeted bool
 	// DevKinds restricts which kinds of deviation the budgeted environment offers (nil = all):
@@ -251,18 +252,29 @@ func (c *Config) plogWrite(t *ss.Txn, cur tla.Value, _ []tla.Value, v tla.Value)
 	return cur, nil
 }
 
-// leaderTimeoutRead (budgeted mode): an election timeout is free while no live server is leader;
-// a timeout that fires although a live leader exists (a spurious timeout, possible under delay)
+// leaderTimeoutRead (budgeted mode): an election timeout is free while no live server is leader
+// and no *other* live server is campaigning; a timeout that fires although a live leader exists or
+// another candidate's election is in progress (spurious / duelling timeouts, possible under delay)
 // is a deviation.
 func (c *Config) leaderTimeoutRead(t *ss.Txn, cur tla.Value, _ []tla.Value) (tla.Value, tla.Value, error) {
-	liveLeader := false
+	// which server is asking (server-side processes have self = k*N + srvId)
+	me := (int(t.Self.AsNumber())-1)%c.NumServers + 1
+	busy := false
 	st, nw := t.Get("state"), t.Get("network")
 	for i := 1; i <= c.NumServers; i++ {
-		if st.ApplyFunction(num(i)).AsString() == "leader" && nw.ApplyFunction(num(i)).ApplyFunction(kEnabled).AsBool() {
-			liveLeader = true
+		if !nw.ApplyFunction(num(i)).ApplyFunction(kEnabled).AsBool() {
+			continue
+		}
+		switch st.ApplyFunction(num(i)).AsString() {
+		case "leader":
+			busy = true
+		case "candidate":
+			if i != me {
+				busy = true // somebody else's election is in progress
+			}
 		}
 	}
-	if liveLeader {
+	if busy {
 		return tla.Value{}, tla.MakeBool(c.dev("election") && t.Deviate(2, "LeaderTimeout.spurious") == 1), nil
 	}
 	if t.Choose(2, "LeaderTimeout.either") == 0 {
